@@ -63,6 +63,20 @@ type h8Step struct {
 type h8Replay struct {
 	History []string `json:"history"`
 	Steps   []h8Step `json:"steps"`
+	Mapped  bool     `json:"mapped,omitempty"`
+}
+
+// h8Mapped: the task maps the whole source database to another downstream database. The decision of C08 is made on
+// the writer's tables, which are keyed by SOURCE names: it must come out the same with and without a mapping (the
+// downstream model does not look at names).
+var h8Mapped bool
+
+func h8Writer(fd *fakeDown, snap map[string]map[string]uint64) *ChannelWriter {
+	w, _ := newVerifWriter(fd, "", snap)
+	if h8Mapped {
+		w.UpdateNameMappings(map[string]string{h8DB + ".*": "dbm.*"})
+	}
+	return w
 }
 
 func h8Levels(kind string) (byte, int) {
@@ -188,7 +202,7 @@ func h8NewWorld(ops []h8Op, cats []*srccat.Catalog) *h8World {
 	}
 	wd.fd = &fakeDown{}
 	wd.fd.answer = wd.answer
-	wd.w, _ = newVerifWriter(wd.fd, "", nil)
+	wd.w = h8Writer(wd.fd, nil)
 	return wd
 }
 
@@ -295,7 +309,7 @@ func (wd *h8World) restart(snapAt, rewM, rewE int) {
 	op := reader.NewVerifEtcdOp(fe.Client(), srccat.Root, srccat.Meta, &h8Target{d: &wd.down}, util.NoRetryOption())
 	snap := op.GetAllDroppedObj()
 	op.VerifClose()
-	wd.w, _ = newVerifWriter(wd.fd, "", snap)
+	wd.w = h8Writer(wd.fd, snap)
 	keys := wd.dropKeys()
 	wd.known = [3]uint64{}
 	for lv, kind := range []string{util.DroppedDatabaseKey, util.DroppedCollectionKey, util.DroppedPartitionKey} {
@@ -469,6 +483,7 @@ func TestVerifC08Histories(t *testing.T) {
 		if ops == nil {
 			t.Fatal("illegal history")
 		}
+		h8Mapped = f.Replay.Mapped
 		if _, msg, _ := h8Run(ops, cats, f.Replay.Steps); msg != "" {
 			fmt.Println("REPLAY-VIOLATION", msg)
 			res.Violate("replay", msg, f.Replay)
@@ -486,7 +501,7 @@ func TestVerifC08Histories(t *testing.T) {
 	res.Bounds["history_depth"] = depth
 	res.Bounds["restarts"] = maxRestarts
 	res.Bounds["use_kinds"] = uses
-	res.Rule = "every legal source history up to the depth bound over {create/drop database db1, create/drop/gc collection a, create/drop/gc partition p, use operations} is split into the op-message stream and the API-event stream; every merge of the two streams (explicit-state DFS, states deduplicated on stream positions + writer tables + downstream model + known drops) is delivered to the real ChannelWriter, with restarts (new writer from the real GetAllDroppedObj snapshot of the catalog, taken at the delivered point or at the end of the history; op-message stream rewound by every amount, event stream by 0..1) at every point; each delivered operation is compared with the reference cascade (known drop at or after t => skipped; else object present downstream => next level, absent => failed and retried later; else applied exactly once) and no call may land on a governing object whose downstream incarnation is newer than the operation; non-trivial = deliveries whose outcome is skip or fail"
+	res.Rule = "every legal source history up to the depth bound over {create/drop database db1, create/drop/gc collection a, create/drop/gc partition p, use operations} is split into the op-message stream and the API-event stream; every merge of the two streams (explicit-state DFS, states deduplicated on stream positions + writer tables + downstream model + known drops) is delivered to the real ChannelWriter (once without and once with a whole-database name mapping configured), with restarts (new writer from the real GetAllDroppedObj snapshot of the catalog, taken at the delivered point or at the end of the history; op-message stream rewound by every amount, event stream by 0..1) at every point; each delivered operation is compared with the reference cascade (known drop at or after t => skipped; else object present downstream => next level, absent => failed and retried later; else applied exactly once) and no call may land on a governing object whose downstream incarnation is newer than the operation; non-trivial = deliveries whose outcome is skip or fail"
 	alphabet := append([]string{"createDB", "dropDB", "createColl", "dropColl", "gcColl", "createPart", "dropPart", "gcPart"}, uses...)
 	deadline := time.Now().Add(ev.Budget(150 * time.Second))
 	nHist := 0
@@ -515,7 +530,11 @@ func TestVerifC08Histories(t *testing.T) {
 				if strings.HasPrefix(tag, "newer-incarnation") {
 					kind = "any" // the finding is the missing record, whatever operation meets it
 				}
-				res.Violate(fmt.Sprintf("C08/hist/%s/%s/%s", tag, kind, rs), fmt.Sprintf("history %v steps %+v: %s", hist, steps, msg), h8Replay{History: hist, Steps: steps})
+				mp := ""
+				if h8Mapped {
+					mp = " (whole-database name mapping)"
+				}
+				res.Violate(fmt.Sprintf("C08/hist/%s/%s/%s", tag, kind, rs), fmt.Sprintf("history %v steps %+v%s: %s", hist, steps, mp, msg), h8Replay{History: hist, Steps: steps, Mapped: h8Mapped})
 				return true
 			}
 			res.Transitions++
@@ -573,10 +592,13 @@ func TestVerifC08Histories(t *testing.T) {
 			if ops[len(ops)-1].Stream != 0 {
 				nHist++
 				if ev.Mine(nHist) {
-					if !explore(append([]string{}, hist...), ops, cats) {
-						res.Exhaustive = false
-						res.Bounds["stopped_at_history"] = nHist
-						return
+					for _, mapped := range []bool{false, true} {
+						h8Mapped = mapped
+						if !explore(append([]string{}, hist...), ops, cats) {
+							res.Exhaustive = false
+							res.Bounds["stopped_at_history"] = nHist
+							return
+						}
 					}
 				}
 			}
